@@ -32,6 +32,7 @@ REQUIRED = [
     # round 3: Add as two store transactions, all interleavings of concurrent callers (Props/C08Phases.lean)
     "fact_add_phases", "add_is_read_then_write", "verifyPrevs_grow", "concurrent_adds_refine_spec",
     "concurrent_schedule_refines_spec", "stale_verdict_still_valid", "lost_race_changes_nothing", "winner_stores_once",
+    "concurrent_adds_keep_dag_valid", "reachable_root",
     # round 3: the repair's own write transaction fails (Props/C08RepairFault.lean)
     "fact_repair_fault", "failed_repair_keeps_disk_same_memory", "repair_restores_memory_even_if_commits_fail",
     "failed_repair_idle_on_healthy_state", "failed_repair_is_not_durable_witness",
